@@ -91,7 +91,7 @@ Lemma sph_series_at_0 :
 Proof.
   assert (He : 0 < / 4503599627370496) by (apply Rinv_0_lt_compat; lra).
   repeat split; intros k Hk; destruct k as [|[|[|[|k]]]]; try lia;
-    unfold tw3; rcbv; unfold Rltb; (destruct (Rlt_dec 0 (/ 4503599627370496)); [|contradiction]); simpl; field.
+    unfold tw3; rcbv; unfold Rltb; rewrite ?Rabs_R0; (destruct (Rlt_dec 0 (/ 4503599627370496)); [|contradiction]); simpl; field.
 Qed.
 
 (* ---- exp(x)-1 and ln(1+x) at zero: the towers of C01 hold there ---- *)
